@@ -467,6 +467,54 @@ def analyse_verify_shape():
     return sorted(uses), sites, sorted(psid_shape)
 
 
+def analyse_learn_sites():
+    """`CertificateLibrary.verify_sequence_of_certificates`: one entry per `return <name>` whose name is bound in the
+    function to a certificate object built from the message (`Certificate.from_dict(...)`): is the statement immediately
+    before it, in the same block, `self.add_authorization_ticket(<that name>)`?  (Lookups of already known tickets -
+    `return self.known…[…]` -, the recursive call and `return None` are not entries.)  The model's `verifySeq1` returns the
+    store WITH the ticket for every verify service, with or without a sign service wired in."""
+    tree = ast.parse(src("security/certificate_library.py"))
+    sites = []
+    for cls in tree.body:
+        if not (isinstance(cls, ast.ClassDef) and cls.name == "CertificateLibrary"):
+            continue
+        for fn in cls.body:
+            if not (isinstance(fn, ast.FunctionDef) and fn.name == "verify_sequence_of_certificates"):
+                continue
+            selfname = fn.args.args[0].arg
+            built = set()
+            for n in ast.walk(fn):
+                if isinstance(n, ast.Assign) and isinstance(n.value, ast.Call) and isinstance(n.value.func, ast.Attribute) \
+                        and n.value.func.attr == "from_dict":
+                    built |= {t.id for t in n.targets if isinstance(t, ast.Name)}
+
+            def stores(st, name):
+                if not (isinstance(st, ast.Expr) and isinstance(st.value, ast.Call)):
+                    return False
+                f = st.value.func
+                return (isinstance(f, ast.Attribute) and f.attr == "add_authorization_ticket" and isinstance(f.value, ast.Name)
+                        and f.value.id == selfname and len(st.value.args) == 1 and isinstance(st.value.args[0], ast.Name)
+                        and st.value.args[0].id == name)
+            for parent in ast.walk(fn):
+                for field in ("body", "orelse", "finalbody"):
+                    block = getattr(parent, field, None)
+                    if not isinstance(block, list):
+                        continue
+                    for i, st in enumerate(block):
+                        if isinstance(st, ast.Return) and isinstance(st.value, ast.Name) and st.value.id in built:
+                            sites.append(i > 0 and stores(block[i - 1], st.value.id))
+    return sites
+
+
+@register(props=["C05"])
+def gen_router_rx_for_c05():
+    """`Props.C05.source_operations_assemble_their_own_pdu` is discharged over `Generated/RouterRx.lean` (who calls
+    `_forward_pdu`), regenerated by C06's ast pass (harness/gen_router.py): run it for C05 too, so that a source operation
+    routed through the forwarders' helper re-opens C05's obligation."""
+    import gen_router
+    gen_router.gen_router_rx()
+
+
 @register(props=["C03", "C05"])
 def gen_sec_rx():
     reads, writes = analyse_rx()
@@ -485,5 +533,8 @@ def gen_sec_rx():
     body += "def successSites : List Bool := [" + ", ".join("true" if g else "false" for g in sites) + "]\n"
     body += "/-- shape of the membership tests against the ticket's appPermissions in VerifyService -/\n"
     body += "def psidGuardShape : List String := [" + ", ".join(_lean_str(x) for x in psid_shape) + "]\n"
+    body += ("/-- one entry per `return <certificate object built from the message>` of\n"
+             "    CertificateLibrary.verify_sequence_of_certificates: immediately preceded by `self.add_authorization_ticket(<it>)`? -/\n")
+    body += "def learnSites : List Bool := [" + ", ".join("true" if g else "false" for g in analyse_learn_sites()) + "]\n"
     body += "end Generated.SecRx\n"
     write_if_changed("SecRx.lean", body)
